@@ -38,6 +38,23 @@ func (s *state) resolveCallee(d ssa.CallInstruction, strict bool) (*ssa.Function
 			}
 		}
 	}
+	// a function value loaded from a struct field: callback contract Outer@Type.field
+	if un, ok := c.Value.(*ssa.UnOp); ok && un.Op == token.MUL {
+		if fa, ok := un.X.(*ssa.FieldAddr); ok {
+			if pt, ok := fa.X.Type().Underlying().(*types.Pointer); ok {
+				if st, ok := pt.Elem().Underlying().(*types.Struct); ok {
+					if nt, ok := pt.Elem().(*types.Named); ok {
+						parent := d.Parent()
+						if pc := u.eng.contracts[parent.Pkg.Pkg.Path()]; pc != nil {
+							if fc := pc.funcs[funcKey(parent)+"@"+nt.Obj().Name()+"."+st.Field(fa.Field).Name()]; fc != nil {
+								return nil, fc, nil
+							}
+						}
+					}
+				}
+			}
+		}
+	}
 	// dynamic: function value
 	var fv Val
 	if x, ok := s.vals[c.Value]; ok {
@@ -689,9 +706,30 @@ func (s *state) appendOp(d *ssa.Call) Val {
 		} else {
 			addOff = bvadd(add.S[1], m.offMulConst(iv, esz))
 		}
+		tail := fmt.Sprintf("(forall ((%s %s)) (=> %s (= (select (select %s %s) %s) (select (select %s %s) %s))))", iv, m.offSort(), c2, nw, ref, o3, old, add.S[0], addOff)
+		if n, lit := litInt(add.S[2]); lit && n >= 0 && n <= 4 {
+			// append(s, x, ...): a known small number of new elements - stated one by one
+			var gs []string
+			for i := int64(0); i < n; i++ {
+				ic := m.offConst(i)
+				var po, ao string
+				if m.intMode {
+					po = fmt.Sprintf("(* (+ %s %s) %d)", base.S[2], ic, esz)
+					ao = fmt.Sprintf("(+ %s (* %s %d))", add.S[1], ic, esz)
+				} else {
+					po = m.offMulConst(bvadd(base.S[2], ic), esz)
+					ao = bvadd(add.S[1], m.offMulConst(ic, esz))
+				}
+				gs = append(gs, fmt.Sprintf("(= (select (select %s %s) %s) (select (select %s %s) %s))", nw, ref, po, old, add.S[0], ao))
+			}
+			tail = "true"
+			if len(gs) > 0 {
+				tail = "(and " + strings.Join(gs, " ") + " true)"
+			}
+		}
 		s.pc = append(s.pc,
 			fmt.Sprintf("(forall ((%s %s)) (=> %s (= (select (select %s %s) %s) (select (select %s %s) %s))))", iv, m.offSort(), c1, nw, ref, o1, old, base.S[0], o2),
-			fmt.Sprintf("(forall ((%s %s)) (=> %s (= (select (select %s %s) %s) (select (select %s %s) %s))))", iv, m.offSort(), c2, nw, ref, o3, old, add.S[0], addOff),
+			tail,
 			fmt.Sprintf("(forall ((r!c Int)) (=> (not (= r!c %s)) (= (select %s r!c) (select %s r!c))))", ref, nw, old))
 	}
 	return Val{T: d.Type(), S: []string{ref, m.offConst(0), nl, ncap}}
